@@ -120,7 +120,8 @@ def run_model(cases, workdir):
         for j, c in enumerate(sh):
             n = k * SHARD + j
             num[n] = c
-            lines.append((n, c.get("mode", "exact"), c["prog"], c["seen"]))
+            mprog, mseen = core.with_array_queries(c.get("src", c["prog"]), c["seen"])
+            lines.append((n, c.get("mode", "exact"), mprog, mseen))
         path = os.path.join(workdir, f"cases_{k:04d}.v")
         with open(path, "w") as fh:
             fh.write(core.shard_text(lines))
@@ -148,7 +149,8 @@ def model_details(case, workdir):
     """the model's own observations for one case (for the replay file)"""
     os.makedirs(workdir, exist_ok=True)
     path = os.path.join(workdir, "detail_%s.v" % case["id"].replace("/", "_").replace(":", "_"))
-    txt = core.shard_text([(0, case.get("mode", "exact"), case["prog"], case["seen"])])
+    mprog, mseen = core.with_array_queries(case.get("src", case["prog"]), case["seen"])
+    txt = core.shard_text([(0, case.get("mode", "exact"), mprog, mseen)])
     txt += "Eval vm_compute in details cases.\n"
     with open(path, "w") as fh:
         fh.write(txt)
